@@ -43,6 +43,7 @@ def render(rec, seed=0, name=None):
     sp = Speller(seed)
     kind = rec["kind"]
     name = name or ("test." + kind)
+    sp.guard = corpus.guard_of(name)
     out = []
     linemap = []
     for ln in rec["prog"]:
@@ -51,6 +52,8 @@ def render(rec, seed=0, name=None):
             out.append(corpus.header42(name))
         elif ln["k"] == "empty":
             out.append("\n")
+        elif ln["k"] == "comment" and ln["st"] == "IsComment3":
+            out.append("/*\n** " + sp.text(18) + "\n*/\n")
         else:
             out.append(sp.render(ln["items"]) + "\n")
     return name, "".join(out), linemap
